@@ -18,8 +18,8 @@ CHECKS = {
          "Token stream (rule name, text, offset) or error position compared with an independent implementation of the documented rules.",
          "Trusted: Go's regexp and regexp.QuoteMeta (used by both sides); pop/return on the initial state is outside the definition and only compared up to that point.",
          "DESIGN.md 3.2.3, 4 C03"),
- "C04": ("invariant oracle computed from the input text alone (value = input bytes at offset, ordering, EOF, line/column, filename, concatenation) over stateful, simple and every text/scanner constructor",
-         "No reference lexer involved: positions and values are re-derived from the input bytes. Generated Go lexers get the same oracle inside the C05 check.",
+ "C04": ("invariant oracle computed from the input text alone (value = input bytes at offset, ordering, EOF, line/column, filename, concatenation) over stateful, simple, generated (participle gen lexer output compiled into the child) and every text/scanner constructor",
+         "No reference lexer involved: positions and values are re-derived from the input bytes, for all four lexer kinds.",
          "Trusted: the 20-line position oracle (LineCol). Only successful lexing is judged.",
          "DESIGN.md 3.2.5, 4 C04"),
  "C05": ("translation check: Go source emitted by `participle gen lexer` is compiled and run against lexer.New(rules) on the same inputs; a PEG model of possessive matching run next to Go's regexp decides the documented tolerance",
